@@ -95,16 +95,20 @@ func e0(w *World, r *Report) {
 		calls := 0
 		ok := false
 		for _, c := range CallsIn(fn) {
+			// the embedded state reached through a one-line accessor of the wrapper is the
+			// same delegation: the accessor is looked through and does not count as a call
+			if cal := c.Common().StaticCallee(); cal != nil && w.InModule(cal) && isFieldGetter(cal) {
+				continue
+			}
 			calls++
-			if w.canonCall(c.Common(), 0) == want {
+			if w.canonCall(c.Common(), 0) == want || w.canonCallI(c.Common()) == want {
 				ok = true
 			}
 		}
 		if ok && fn.Signature.Results().Len() > 0 {
 			for _, b := range fn.Blocks {
 				if ret, isR := lastInstr(b).(*ssa.Return); isR {
-					s := w.Canon(ret.Results[0])
-					if !strings.HasPrefix(s, want) {
+					if !strings.HasPrefix(w.Canon(ret.Results[0]), want) && !strings.HasPrefix(w.CanonI(ret.Results[0]), want) {
 						ok = false
 					}
 				}
@@ -120,6 +124,14 @@ func e0(w *World, r *Report) {
 				ok = w.Canon(ret.Results[0]) == "(p0.GetBalance(p1).Cmp(p2) >= 0)"
 			}
 		}
+		if !ok {
+			// the same test with an early exit: no `true` is returned when the balance
+			// is below the amount, no `false` when it is not
+			okT, whyT := w.runUnderBool(ct, A("p0.GetBalance(p1)", "<", "p2"), false)
+			okF, whyF := w.runUnderBool(ct, A("p0.GetBalance(p1)", ">=", "p2"), true)
+			ok = okT && okF
+			_ = whyT + whyF
+		}
 		r.Check(ok, "E-0", "CanTransfer", "balance >= amount", "CanTransfer is not `balance >= amount`", fnSite(w, ct))
 	}
 	tf := needFn(r, "E-0", w, fref{pkgEVM, "", "Transfer"})
@@ -131,24 +143,54 @@ func e0(w *World, r *Report) {
 	bc := needFn(r, "E-0", w, fref{pkgEVM, "", "evmBlockContext"})
 	if bc != nil {
 		ok := 0
-		for _, fs := range w.fieldStores(bc) {
+		// a fresh big integer holding the given parameter: big.NewInt(p) or new(big.Int).SetInt64(p)
+		freshBigOf := func(v ssa.Value, p string) bool {
+			c, isC := stripConv(v).(*ssa.Call)
+			if !isC {
+				return false
+			}
+			cal := c.Common().StaticCallee()
+			if cal == nil || cal.Pkg == nil || cal.Pkg.Pkg.Path() != "math/big" {
+				return false
+			}
+			a := c.Common().Args
+			switch {
+			case cal.Name() == "NewInt" && len(a) == 1:
+				return w.Canon(a[0]) == p
+			case cal.Name() == "SetInt64" && len(a) == 2:
+				_, fresh := stripConv(a[0]).(*ssa.Alloc)
+				return fresh && w.Canon(a[1]) == p
+			}
+			return false
+		}
+		// the context may be started by a helper (the callbacks) and completed here
+		var stores []fieldStore
+		for _, g := range w.withModuleCallees(bc, 1) {
+			if g != bc && len(g.Params) != 0 {
+				continue // a helper with parameters: its stores are not in evmBlockContext's terms
+			}
+			stores = append(stores, w.fieldStores(g)...)
+		}
+		seenF := map[string]bool{}
+		for _, fs := range stores {
+			good := false
 			switch fs.Field.Name() {
 			case "CanTransfer":
-				if w.Canon(fs.Val) == "evm.CanTransfer" {
-					ok++
-				}
+				good = w.Canon(fs.Val) == "evm.CanTransfer"
 			case "Transfer":
-				if w.Canon(fs.Val) == "evm.Transfer" {
-					ok++
-				}
+				good = w.Canon(fs.Val) == "evm.Transfer"
 			case "BlockNumber":
-				if w.Canon(fs.Val) == "big.NewInt(p1)" {
-					ok++
-				}
+				good = freshBigOf(fs.Val, "p1")
 			case "Time":
-				if w.Canon(fs.Val) == "big.NewInt(p2)" {
-					ok++
-				}
+				good = freshBigOf(fs.Val, "p2")
+			default:
+				continue
+			}
+			if good && !seenF[fs.Field.Name()] {
+				seenF[fs.Field.Name()] = true
+				ok++
+			} else if !good {
+				ok = -100 // one of the four fields also gets another value
 			}
 		}
 		r.Check(ok == 4, "E-0", "evmBlockContext", "the EVM's block context uses these transfer functions and the block's number and time", "evmBlockContext does not install CanTransfer/Transfer and the block's number/time", fnSite(w, bc))
@@ -203,11 +245,34 @@ func e1(w *World, r *Report) {
 	}
 	pa := needFn(r, "E-1", w, fref{pkgEVM, "StateDBWrapper", "PrepareAccessList"})
 	if pa != nil {
-		e := "[(phi((φ + 1)|-1) + 1)]"
-		d := w.findCall(pa, "recv.StateDB.PrepareAccessList(p0, p1, p2, p3)")
+		// every element: the range form or an index loop from 0
+		e := `\[(\(phi\(\(φ \+ 1\)\|-1\) \+ 1\)|phi\(0\|\(φ \+ 1\)\)|phi\(\(φ \+ 1\)\|0\))\]`
+		// the call in PrepareAccessList that matches — itself, or the call of a helper of
+		// the wrapper in which the matching call sits (printed in PrepareAccessList's terms)
+		find := func(re *regexp.Regexp) ssa.Instruction {
+			for _, c := range CallsIn(pa) {
+				if re.MatchString(w.canonCall(c.Common(), 0)) || re.MatchString(w.canonCallI(c.Common())) {
+					return c
+				}
+			}
+			for _, hc := range CallsIn(pa) {
+				g := hc.Common().StaticCallee()
+				if g == nil || !w.InModule(g) || g.Blocks == nil || g.Name() == "addAccessedObjAddr" {
+					continue
+				}
+				for _, c2 := range CallsIn(g) {
+					c2 := c2
+					if w.inCallerTerms(pa, g, func() bool { return re.MatchString(w.canonCall(c2.Common(), 0)) }) {
+						return hc
+					}
+				}
+			}
+			return nil
+		}
+		d := find(mustRe(`^recv\.StateDB\.PrepareAccessList\(p0, p1, p2, p3\)$`))
 		ok := d != nil
-		for _, want := range []string{"recv.addAccessedObjAddr(p0)", "recv.addAccessedObjAddr(p1)", "recv.addAccessedObjAddr(p2" + e + ")", "recv.addAccessedObjAddr(p3" + e + ".Address)"} {
-			c := w.findCall(pa, want)
+		for _, want := range []string{`^recv\.addAccessedObjAddr\(p0\)$`, `^recv\.addAccessedObjAddr\(p1\)$`, `^recv\.addAccessedObjAddr\(p2` + e + `\)$`, `^recv\.addAccessedObjAddr\(p3` + e + `\.Address\)$`} {
+			c := find(mustRe(want))
 			if c == nil || d == nil || !instrReaches(c, d) {
 				ok = false
 			}
@@ -766,4 +831,27 @@ func e7(w *World, r *Report) {
 	if n == 0 {
 		r.Undecided("E-7", "gas-pool", "no creation of a gas pool found (BeginBlock is expected to fill a fresh one with the block gas limit)")
 	}
+}
+
+// isFieldGetter: a method whose whole body is `return recv.f` (one block, no call, no store).
+func isFieldGetter(fn *ssa.Function) bool {
+	if fn == nil || len(fn.Blocks) != 1 || fn.Signature.Recv() == nil || len(fn.Params) != 1 {
+		return false
+	}
+	for _, in := range fn.Blocks[0].Instrs {
+		switch x := in.(type) {
+		case *ssa.FieldAddr:
+			if x.X != ssa.Value(fn.Params[0]) {
+				return false
+			}
+		case *ssa.UnOp, *ssa.DebugRef:
+		case *ssa.Return:
+			if len(x.Results) != 1 {
+				return false
+			}
+		default:
+			return false
+		}
+	}
+	return true
 }
